@@ -243,6 +243,8 @@ impl<T: RealNumber + Sum> KMeans<T> {
 
     fn kmeans_plus_plus<M: Matrix<T>>(data: &M, k: usize) -> Vec<usize> {
         let mut rng = rand::thread_rng();
+        #[cfg(smartcore_verif)]
+        let mut rng = crate::verif_hooks::schedule_rng();
         let (n, m) = data.shape();
         let mut y = vec![0; n];
         let mut centroid = data.get_row_as_vec(rng.gen_range(0..n));
